@@ -77,7 +77,7 @@ fn strip_comment(line: String) -> String {
 }
 
 fn strip_whitespaces(line: String) -> String {
-    let without_whitespaces = line.replace(SYMBOL.whitespace, SYMBOL.empty_string);
+    let without_whitespaces = line.replace(SYMBOL.whitespace, SYMBOL.empty_string).replace("\t", SYMBOL.empty_string);
 
     without_whitespaces
 }
